@@ -980,6 +980,29 @@ func (f *Frame) applyContract0(in ssa.Instruction, ct *Contract, fn *ssa.Functio
 			}
 		}
 	}
+	// A *bytes.Buffer handed to a callee as a plain writer: the callee's contract speaks about the writer's log only
+	// (wrLen/wrLog) and does not list rdLeft, i.e. it never reads from it; the buffer's unread length then grows by
+	// exactly the number of bytes the call appended.
+	type bufSync struct{ ref, oldLen string }
+	var bufSyncs []bufSync
+	if gl := ct.Flags["modifies"]; gl != "" && regexp.MustCompile(`\bwrLen\b`).MatchString(gl) && !regexp.MustCompile(`\brdLeft\b|\*`).MatchString(gl) {
+		if _, ok := x.S.GhostVars["rdLeft"]; ok {
+			for _, a := range args {
+				if a.Dyn != nil && a.DynV != nil && a.DynV.T != "" && strings.HasSuffix(a.Dyn.String(), "*bytes.Buffer") {
+					wl := c.ghostVar("wrLen", "(Array Int Int)")
+					bufSyncs = append(bufSyncs, bufSync{a.DynV.T, sel(st.get(wl), a.DynV.T)})
+				}
+			}
+		}
+	}
+	defer func() {
+		for _, b := range bufSyncs {
+			wl := c.ghostVar("wrLen", "(Array Int Int)")
+			rd := c.ghostVar("rdLeft", "(Array Int Int)")
+			st.set(rd, sto(st.get(rd), b.ref, fmt.Sprintf("(+ %s (- %s %s))", sel(st.get(rd), b.ref), sel(st.get(wl), b.ref), b.oldLen)))
+			x.usedStub["model: a *bytes.Buffer passed as io.Writer to a function whose contract only writes (wrLen, wrLog) grows its unread length by the bytes appended"] = true
+		}
+	}()
 	// ghost updates: "ensures" may mention ghost variables in post-state; havoc those the contract lists
 	if gl := ct.Flags["modifies"]; gl != "" {
 		names := strings.Fields(strings.ReplaceAll(gl, ",", " "))
